@@ -7,7 +7,7 @@
            | ["scWake"] | ["scWaitRootsEnd"] | ["scStopCore"] | ["scCoreStopped"] | ["scCleanupEnd", o]
            | ["vaultClosed"] | ["enter", root] | ["coreEnter"] | ["coreEnd", how]
            | ["rootStopping", root, fail] | ["rootEnd", root, how]
-           | ["subSpawn", i, kind] | ["subStopping", i, fail] | ["withdraw", i] | ["subEnd", i, how]
+           | ["subSpawn", i, kind] | ["subStopping", i, fail] | ["subGone", i] | ["subCancel", i] | ["withdraw", i] | ["subEnd", i, how]
            | ["workerStart", w, owner] | ["workerEnd", w, how] | ["daemonSpawn", d] | ["daemonExit", d]
            | ["waiterEnd"] | ["orphan"] | ["orphanEnd"] | ["act", actor] | ["rtStopRoots"] | ["rtCancel"] | ["rtHungWait"]
            | ["rtStopHung"] | ["rtCStopHung"] | ["rtExit", res] | ["end"] (only advances the clock)
@@ -93,6 +93,8 @@ def obsOf? (xs : List Json) : Option Obs :=
       pure (.lab (.rootEnd r h))
   | [.str "subSpawn", i, .str k] => do pure (.subSpawnAs (← jNat? i) (← kindOf? k))
   | [.str "subStopping", i, .bool f] => do pure (.lab (.subStopping (← jNat? i) f))
+  | [.str "subGone", i] => do pure (.lab (.subGone (← jNat? i)))
+  | [.str "subCancel", i] => do pure (.lab (.subCancel (← jNat? i)))
   | [.str "withdraw", i] => do pure (.lab (.withdraw (← jNat? i)))
   | [.str "subEnd", i, .str h] => do pure (.lab (.subEnd (← jNat? i) (← howOf? h)))
   | [.str "workerStart", w, o] => do pure (.workerStartAs (← jNat? w) (← taskOf? o))
